@@ -46,7 +46,7 @@ ASSUMPTIONS = [
 
 KINDS = {'IndexError': 'KIndex', 'TypeError': 'KType', 'ValueError': 'KValue', 'RuntimeError': 'KRuntime',
          'AttributeError': 'KAttr', 'AssertionError': 'KAssert'}
-QUERY_OPS = {'qdur', 'qbody', 'eq', 'eqcopy', 'nop'}
+QUERY_OPS = {'qdur', 'qbody', 'eq', 'eqcopy', 'nop', 'hold'}
 
 # ---------------------------------------------------------------------------------------------------------------------
 # generation
@@ -208,6 +208,73 @@ def gen_cases(rng, tier, ctx):
             else:
                 ops.append(rnd_op(rng, True))
         cases.append({'kind': 'hist', 'src': 'rollmix', 'init': init, 'ops': ops})
+    cases.extend(gen_forest(rng, quick))
+    return cases
+
+
+# round 2: the user keeps references to nodes; a node that dropped out of the program is edited afterwards
+REMOVERS = ['setslice', 'setslice', 'setint', 'unroll', 'merge', 'cleanup', 'unrollc', 'encaps', 'split']
+EDITS = ['append', 'append', 'setwf', 'setrep', 'setslice', 'setint', 'copyappend', 'unrollc', 'reverse', 'qdur']
+
+
+def rnd_op_of(rng, kinds):
+    while True:
+        op = rnd_op(rng, False)
+        if op['op'] in kinds:
+            return op
+
+
+def gen_forest(rng, quick):
+    cases = []
+    leaf = lambda d: L(['c', d, 1], 1)
+    # directed: query, hold child i, remove it from its parent in different ways, edit it, query
+    removers = [
+        lambda i: {'op': 'setslice', 'sel': [], 'start': i, 'stop': i + 1, 'step': None, 'ts': [leaf('3')]},
+        lambda i: {'op': 'setint', 'sel': [], 'idx': i, 't': leaf('3')},
+        lambda i: {'op': 'setslice', 'sel': [], 'start': None, 'stop': None, 'step': None, 'ts': []},
+        lambda i: {'op': 'unroll', 'sel': [i]},
+        lambda i: {'op': 'setslice', 'sel': [], 'start': None, 'stop': None, 'step': -1, 'ts': None},
+        lambda i: {'op': 'cleanup', 'sel': [], 'rm': True, 'mg': True},
+        lambda i: {'op': 'merge', 'sel': []},
+    ]
+    edits = [
+        {'op': 'append', 'sel': [], 't': leaf('7'), 'kw': False},
+        {'op': 'setwf', 'sel': [0], 'w': ['c', '5', 1]},
+        {'op': 'setrep', 'sel': [0], 'z': 4},
+        {'op': 'append', 'sel': [0], 't': leaf('2'), 'kw': True},
+    ]
+    inits = [N([N([leaf('1')], 2)]), N([N([leaf('1'), leaf('2')], 2), leaf('4')], 2), N([N([N([leaf('1')], 3)], 1)], 2)]
+    for init in inits:
+        nch = len(init['c'])
+        for i in range(nch):
+            for rm in removers:
+                for ed in edits:
+                    r = rm(i)
+                    if r.get('ts', 0) is None:
+                        r['ts'] = [leaf('1') for _ in range(nch)]
+                    cases.append({'kind': 'forest', 'src': 'fdir', 'init': init, 'ops': [
+                        {'f': 'main', 'op': {'op': 'qdur', 'sel': []}}, {'f': 'hold', 'sel': [i]}, {'f': 'main', 'op': r},
+                        {'f': 'main', 'op': {'op': 'qdur', 'sel': []}},      # the former parent chain caches again
+                        {'f': 'at', 'k': 0, 'op': ed}, {'f': 'main', 'op': {'op': 'qdur', 'sel': []}},
+                        {'f': 'at', 'k': 0, 'op': {'op': 'qdur', 'sel': []}}]})
+    if quick:
+        cases = cases[::2]
+    for _ in range(120 if quick else 2500):
+        init = rnd_spec(rng, rng.choice([2, 2, 3]), leaf_p=0.1)
+        ops = []
+        for _ in range(rng.randint(4, 10 if quick else 22)):
+            r = rng.random()
+            if r < 0.2:
+                ops.append({'f': 'hold', 'sel': [rng.randint(0, 3) for _ in range(rng.choice([1, 1, 2]))]})
+            elif r < 0.45:
+                ops.append({'f': 'at', 'k': rng.randint(0, 2), 'op': rnd_op_of(rng, EDITS)})
+            elif r < 0.6:
+                ops.append({'f': 'main', 'op': {'op': 'qdur', 'sel': rnd_sel(rng)}})
+            elif r < 0.85:
+                ops.append({'f': 'main', 'op': rnd_op_of(rng, REMOVERS)})
+            else:
+                ops.append({'f': 'main', 'op': rnd_op(rng, False)})
+        cases.append({'kind': 'forest', 'src': 'frand', 'init': init, 'ops': ops})
     return cases
 
 
@@ -323,7 +390,15 @@ def _wf_obs(w):
     return ['t', vlib.frac_json(w.duration), int(inner._table[-1].v), rev]
 
 
-def observe(root):
+def _top(m):
+    t = m
+    while t.parent is not None and len(t.parent) > 0:
+        t = t.parent
+    return t
+
+
+def observe(root, top=None):
+    top = root if top is None else top
     live = _live(root)
     if len(live) > 400:
         raise RuntimeError('tree too large')
@@ -349,7 +424,7 @@ def observe(root):
         else:
             pr = 'out'
         try:
-            loc = 'self' if root.locate(n.get_location()) is n else 'other'
+            loc = 'self' if top.locate(n.get_location()) is n else 'other'
         except (TypeError, IndexError):
             loc = 'err'
         m = n._measurements
@@ -457,7 +532,73 @@ def apply_op(env, root, op):
     return rop, out, eq
 
 
+def _norm_op(op, volvals):
+    op = dict(op)
+    if 't' in op:
+        op['t'] = norm_spec(op['t'], volvals)
+    if 'ts' in op:
+        op['ts'] = [norm_spec(t, volvals) for t in op['ts']]
+    if op['op'] == 'setrdef' and not isinstance(op['r'], int):
+        op['r'] = ['v', volvals.setdefault(op['r'][2], op['r'][1]), op['r'][2]]
+    return op
+
+
+def run_forest(case):
+    try:
+        with vlib.time_limit(20), warnings.catch_warnings():
+            warnings.simplefilter('ignore')
+            env = Env()
+            volvals = {}
+            init = norm_spec(case['init'], volvals)
+            root = env.build(init)
+            keep, held = [root], []
+            nop = {'op': 'nop', 'path': []}
+
+            def sub_obs(m):
+                t = observe(m, _top(m))
+                if t['par'] is None:
+                    t['pidx'] = None      # the recorded position of a node without parent says nothing
+                return t
+
+            def held_obs():
+                main = {id(n) for n, _ in _live(root)}
+                return [None if id(m) in main else sub_obs(m) for m in held]
+            steps = [{'f': {'f': 'main', 'op': nop}, 'out': 'KDone', 'eq': None, 'tree': observe(root), 'held': []}]
+            for fo in case['ops']:
+                live = _live(root)
+                main = {id(n) for n, _ in live}
+                size = len(live) + sum(len(_live(m)) for m in held if id(m) not in main)
+                if size > 120:
+                    break
+                keep.extend(n for n, _ in live)
+                for m in held:
+                    keep.extend(n for n, _ in _live(m))
+                out, eq = 'KDone', None
+                if fo['f'] == 'hold':
+                    node, path = resolve(root, fo['sel'])
+                    held.append(node)
+                    rf = {'f': 'hold', 'path': path}
+                elif fo['f'] == 'main':
+                    rop, out, eq = apply_op(env, root, _norm_op(fo['op'], volvals))
+                    rf = {'f': 'main', 'op': rop}
+                else:
+                    k = fo['k'] % len(held) if held else 0
+                    if not held or id(held[k]) in main:
+                        rf, out = {'f': 'at', 'k': k, 'op': nop}, 'KBadPath'
+                    else:
+                        rop, out, eq = apply_op(env, held[k], _norm_op(fo['op'], volvals))
+                        rf = {'f': 'at', 'k': k, 'op': rop}
+                steps.append({'f': rf, 'out': out, 'eq': eq, 'tree': observe(root), 'held': held_obs()})
+            return {'init': init, 'steps': steps, 'forest': True}
+    except vlib.Timeout:
+        return {'hang': True}
+    except Exception as e:
+        return {'crash': '%s: %s' % (type(e).__name__, str(e)[:200])}
+
+
 def run_impl(case):
+    if case.get('kind') == 'forest':
+        return run_forest(case)
     try:
         with vlib.time_limit(20), warnings.catch_warnings():
             warnings.simplefilter('ignore')
@@ -575,9 +716,21 @@ def g_otree(t):
         loc, glist(g_otree, t['c']))
 
 
+def g_fop(f):
+    if f['f'] == 'hold':
+        return '(FHold %s)' % g_path(f['path'])
+    if f['f'] == 'main':
+        return '(FMain %s)' % g_op(f['op'])
+    return '(FAt %d%%nat %s)' % (f['k'], g_op(f['op']))
+
+
 def to_coq(case, obs):
     if 'crash' in obs or 'hang' in obs:
         return 'CCrash'
+    if obs.get('forest'):
+        steps = ['(%s, mkFS (mkS %s %s %s) %s)' % (g_fop(s['f']), s['out'], gopt(gbool, s['eq']), g_otree(s['tree']),
+                                                   glist(lambda t: gopt(g_otree, t), s['held'])) for s in obs['steps']]
+        return '(CForest %s [%s])' % (g_spec(obs['init']), ';\n   '.join(steps))
     steps = ['(%s, mkS %s %s %s)' % (g_op(s['op']), s['out'], gopt(gbool, s['eq']), g_otree(s['tree']))
              for s in obs['steps']]
     return '(CHist %s [%s])' % (g_spec(obs['init']), ';\n   '.join(steps))
@@ -619,6 +772,13 @@ def first_failure(obs):
     return None
 
 
+def _opname(s):
+    if 'op' in s:
+        return s['op']['op']
+    f = s['f']
+    return 'hold' if f['f'] == 'hold' else ('at:' if f['f'] == 'at' else '') + f['op']['op']
+
+
 def classify(case, obs):
     ff = first_failure(obs)
     if ff is None:
@@ -634,7 +794,7 @@ def _has_inner_wf(t):
 def py_spec(case, obs):
     ff = first_failure(obs)
     if ff is not None:
-        return 'after step %d (%s): %s' % (ff[0], obs['steps'][ff[0]]['op']['op'], ff[1])
+        return 'after step %d (%s): %s' % (ff[0], _opname(obs['steps'][ff[0]]), ff[1])
     return None
 
 
@@ -643,7 +803,7 @@ def nontrivial(case, obs):
         return False
     edits, queried, q_before_edit = 0, False, False
     for s in obs['steps'][1:]:
-        k = s['op']['op']
+        k = _opname(s).split(':')[-1]
         if k in ('qdur', 'qbody'):
             queried = True
         elif k not in QUERY_OPS and s['out'] == 'KDone':
@@ -657,9 +817,11 @@ def histogram_keys(case, obs):
     if 'steps' not in obs:
         return keys + ['obs:crash']
     for s in obs['steps'][1:]:
-        keys.append('op:%s' % s['op']['op'])
+        keys.append('op:%s' % _opname(s))
         if s['out'] != 'KDone':
-            keys.append('raise:%s:%s' % (s['op']['op'], s['out']))
+            keys.append('raise:%s:%s' % (_opname(s), s['out']))
+        if any(t is not None for t in s.get('held', [])):
+            keys.append('held:detached-tree-observed')
     n = len(_flat(obs['steps'][-1]['tree']))
     keys.append('final_nodes:%s' % ('<=3' if n <= 3 else '<=8' if n <= 8 else '<=20' if n <= 20 else '>20'))
     return keys
@@ -701,8 +863,10 @@ def search_failing(ctx, broken):
     cases = gen_cases(rng, 'quick', ctx)
     near = ctx.get('near')
     if near:
-        kinds = {o['op'] for o in near['ops']}
-        cases.sort(key=lambda c: -len(kinds & {o['op'] for o in c['ops']}))
+        def _k(o):
+            return o['op'] if isinstance(o.get('op'), str) else ('hold' if o.get('f') == 'hold' else o['op']['op'])
+        kinds = {_k(o) for o in near['ops']}
+        cases.sort(key=lambda c: -len(kinds & {_k(o) for o in c['ops']}))
     for c in cases:
         o = run_impl(c)
         if 'steps' not in o:
